@@ -277,6 +277,7 @@ type simStore struct {
 	mu     sync.Mutex
 	m      map[uint][]byte
 	onOp   func(kind string, key uint) bool // true: fail this operation
+	before func(kind string, key uint)      // called before the operation takes the store's lock (gates)
 	listFn func(keys []uint) []uint         // order of List results (nil: ascending)
 }
 
@@ -304,6 +305,9 @@ func (s *simStore) Load(key uint) ([]byte, error) {
 }
 
 func (s *simStore) Save(key uint, value net.Buffers) error {
+	if s.before != nil {
+		s.before("save", key)
+	}
 	s.mu.Lock()
 	defer s.mu.Unlock()
 	var all []byte
